@@ -88,7 +88,7 @@ class Report:
 
     # -- violations -------------------------------------------------------------------
     def violation(self, signature: str, what: str, replay_body: str,
-                  expect_reproduce: bool = True) -> str:
+                  expect_reproduce: bool = True, soft: bool = False) -> str:
         """Write the replay, run it on the unmodified library, classify.
 
         returns 'known' | 'violation' | 'not-reproduced' | 'duplicate'."""
@@ -109,6 +109,12 @@ class Report:
             f.write(replay_body)
         reproduced, out = run_replay(path)
         if not reproduced:
+            if soft:
+                # the obligation rests on an incomplete theory (uninterpreted ln/exp with instance
+                # axioms): a model the real code does not confirm means "not proved", not "violated"
+                if len(self.inconclusive) < 200:
+                    self.inconclusive.append(f"{signature}: symbolic counterexample not confirmed by the real code")
+                return "not-reproduced"
             msg = f"counterexample {signature} did not reproduce on the real library: {out[-300:]}"
             self.harness_errors.append(msg)
             return "not-reproduced"
